@@ -619,6 +619,14 @@ theorem mem_undeclRemoved (t : Tbl) (vrs : List String) (v : String) :
   · rintro ⟨l, h1, h2⟩
     exact ⟨(v, l), List.mem_filter.mpr ⟨TreeMap.mem_toList_iff_getElem?_eq_some.mpr h1, by simpa using h2⟩, rfl⟩
 
+theorem undeclRemoved_nodup (t : Tbl) (vrs : List String) : (undeclRemoved t vrs).Nodup := by
+  unfold undeclRemoved
+  rw [List.Nodup, List.pairwise_map]
+  refine List.Pairwise.filter _ ?_
+  refine (TreeMap.distinct_keys_toList (t := t.vars)).imp ?_
+  intro p q hne he
+  exact hne (by rw [he]; exact compare_self)
+
 /-- the removed names: exactly the named ones, or (no name given) exactly the variables whose
 level carries no node -/
 theorem undeclRemoved_spec (t : Tbl) (hO : OrderOK t) (vrs : List String)
@@ -667,6 +675,7 @@ theorem undeclare_spec (m : Mgr) (hI : Inv m) (hO : OrderOK m.tbl) (vrs : List S
       -- the removed names
       (∀ v, v ∈ rm ↔
         if vrs = [] then (∃ l, m.tbl.vars[v]? = some l ∧ ¬ m.tbl.LevelHasNode l) else v ∈ vrs) ∧
+      (∀ v ∈ rm, m.tbl.vars.contains v = true) ∧ rm.Nodup ∧
       -- the other variables are kept, at the compacted level `f l`
       (∀ (v : String) (j : Nat), m'.tbl.vars[v]? = some j ↔
         ∃ l, m.tbl.vars[v]? = some l ∧ v ∉ rm ∧ j = f l) ∧
@@ -684,9 +693,12 @@ theorem undeclare_spec (m : Mgr) (hI : Inv m) (hO : OrderOK m.tbl) (vrs : List S
     fun l h => (mem_undeclFull _ _ _).mpr (Or.inl h)
   have hvars := undeclState_vars m (undeclFull m.tbl vrs) hO
   refine ⟨_, _, undeclMap (undeclFull m.tbl vrs), undeclare_ok m hI.wf.toWF hO vrs hvrs,
-    undeclRemoved_spec m.tbl hO vrs hvrs, ?_, undeclState_order m _ hO, ?_,
+    undeclRemoved_spec m.tbl hO vrs hvrs, ?_, undeclRemoved_nodup _ _, ?_, undeclState_order m _ hO, ?_,
     undeclState_inv m _ hI hO hfull, undeclState_relabel m _ hI.wf.toWF hO hfull,
     undeclState_denN m _ hI hO hfull, rfl, rfl, ?_, rfl⟩
+  · intro v hv
+    obtain ⟨l, hl, _⟩ := (mem_undeclRemoved _ _ _).mp hv
+    rw [TreeMap.contains_eq_isSome_getElem?, hl]; rfl
   · intro v j
     rw [hvars, mem_undeclRemoved]
     constructor
